@@ -1,0 +1,6 @@
+//go:build !verif
+
+package cache
+
+// failpoint is a no-op unless built with the "verif" tag.
+func failpoint(string) {}
